@@ -1,6 +1,8 @@
 #!/bin/bash
 # try_seed.sh <PID> <name> [tier]: applies /verif/seeded/<PID>-<name>/patch.diff to /repo's working tree, runs the
 # property's check, records the outcome in detect.log, and restores the tree.
+# NOTE: never run this while /verif/harness, /verif/coq or /verif/bin are being edited: a harness that does not
+# compile at that moment is reported as a broken correspondence and looks like a detection of the seeded change.
 PID=$1; NAME=$2; TIER=${3:-quick}
 D=/verif/seeded/$PID-$NAME
 cd /repo && git diff --quiet || { echo "/repo working tree not clean"; exit 2; }
